@@ -18,7 +18,9 @@ if grep -qi "mock-omaha-server/tests\|-p mock-omaha-server" $D/demo$K/RUN.md 2>/
 NAMES=""; DEMODIFF=""
 if ls $D/demo$K/*.rs >/dev/null 2>&1; then
   for f in $D/demo$K/*.rs; do b=$(basename $f .rs); NAMES="$NAMES --test $b"; done
-  run_demo() { mkdir -p $CRATE/tests; for f in $D/demo$K/*.rs; do cp $f $CRATE/tests/; done; cargo test -p $PKG --offline $NAMES 2>&1 | tail -40; }
+  # mock-omaha-server integration tests need hyper's client feature, which only a --workspace build enables
+  if [ "$CRATE" = "mock-omaha-server" ]; then SEL="--workspace"; else SEL="-p $PKG"; fi
+  run_demo() { mkdir -p $CRATE/tests; for f in $D/demo$K/*.rs; do cp $f $CRATE/tests/; done; cargo test $SEL --offline $NAMES 2>&1 | tail -40; }
   rm_demo() { for f in $D/demo$K/*.rs; do rm -f $CRATE/tests/$(basename $f); done; rmdir $CRATE/tests 2>/dev/null; }
 elif ls $D/demo$K/*.diff >/dev/null 2>&1; then
   DEMODIFF=$(ls $D/demo$K/*.diff | head -1)
